@@ -305,12 +305,19 @@ def richardson_retry(repo, run):
     clears = [s2 for s2 in walk_no_nested(fn) if isinstance(s2, ast.Assign) and isinstance(s2.targets[0], ast.Name) and s2.targets[0].id == redo_name
               and isinstance(s2.value, ast.Constant)]
     def in_symplectic_body(n):
-        child = n
-        for a in ancestors_of(n):
-            if isinstance(a, ast.If) and "symplectic" in src(a.test):
-                return any(child is b or any(child is x for x in ast.walk(b)) for b in a.body)
-            child = a
-        return False
+        # the statement must be unreachable when self.symplectic is false (any arrangement of the branches)
+        from ..sym import path_condition, tree_atoms, eval_bool
+        import itertools
+        pc, _ = path_condition(n, fn)
+        ats = tree_atoms(pc)
+        sym_atoms = [a for a in ats if a.split("@")[0] == "self.symplectic"]
+        if not sym_atoms:
+            return False
+        for vals in itertools.product((False, True), repeat=len(ats)):
+            asg = dict(zip(ats, vals))
+            if not asg[sym_atoms[0]] and eval_bool(pc, asg):
+                return False
+        return True
     okc = all(s2.value.value is False and in_symplectic_body(s2) for s2 in clears)
     run.judged(rid, "redo flag overridden only in the symplectic step-doubling branch (%d place(s))" % len(clears), ok=okc)
     if not okc:
